@@ -31,6 +31,20 @@
 //! expression *slices* (one expression inside a larger function selected by a
 //! structural locator; its free variables become parameters).
 //! Items are emitted in `items.json` order and may call only items listed earlier.
+//! Further item kinds: `arm` — ONE arm of a `match` (`locate` selects the match, `arm` is the pattern text,
+//! `scrutinee` the Rust type of the scrutinee): the variables bound by the pattern become the parameters; a pure
+//! body is an expression, a body that assigns through the pattern's `&mut` bindings (`*a += b`) becomes an
+//! `Id.run do` block that returns the matched value of tuple component `state` rebuilt from the updated
+//! bindings (guards fail). `arms` — the patterns (+ guards) of a `match` in source order as a `List String`
+//! (pins the dispatch order the per-arm items do not see). `extern_enum` — an enum of an external crate declared
+//! in items.json (`variants` in Rust syntax, `aliases`). `enum` takes an optional `variants` restriction (a
+//! pattern or expression naming an unlisted variant fails) and `aliases`; variants with named fields are
+//! supported (`V { f: p, .. }` patterns become positional). `fn`/`method` take `"as"`: another Lean / manifest name.
+//! Config (module or item): `ops` {"f64 +": param} float arithmetic as a function parameter; `calls`
+//! {fn: {lean: param, ret: type}} an untranslated free function as a function parameter; `erase_calls` [path]
+//! one-argument wrappers that are dropped (`OrderedFloat(x)`). `use Enum::*;` inside a body brings the variants
+//! of a translated enum into scope; `std::cmp::Ordering::{Less,Equal,Greater}` → Lean `Ordering`; `|` `&` `|=` `&=`
+//! on bools; statement-level `if let` in do-mode. Slice locator `{"assign": place}`: the value assigned to a place.
 //!
 //! Expressions: literals; paths; `! -`; `+ - * / % && || == != < <= > >=`;
 //! `if/else`, `if let … else`; `match` over enums / tuples / literals / `_` /
